@@ -78,12 +78,15 @@ func loopBody(pipestanceBox *pipestanceHolder,
 	pipestance := pipestanceBox.getPipestance()
 	ctx, task := trace.NewTask(context.Background(), "update")
 	defer task.End()
+	util.VerifPoint("loop:begin")
 	pipestance.RefreshState(ctx)
 
 	// Check for completion states.
+	util.VerifPoint("loop:refreshed")
 	state := pipestance.GetState(ctx)
 	if state == core.Complete || state == core.DisabledState {
 		pipestanceBox.UpdateState(state.Prefixed(core.CleanupPrefix))
+		util.VerifPoint("loop:complete")
 		cleanupCompleted(pipestance, pipestanceBox, vdrMode, noExit, ctx)
 		return false
 	} else if state == core.Failed {
@@ -92,6 +95,7 @@ func loopBody(pipestanceBox *pipestanceHolder,
 		} else {
 			pipestanceBox.UpdateState(state.Prefixed(core.CleanupPrefix))
 		}
+		util.VerifPoint("loop:failed")
 		if !attemptRetry(pipestance, pipestanceBox, ctx) {
 			pipestance.Unlock()
 			cleanupFailed(pipestance, pipestanceBox, noExit, ctx)
@@ -155,6 +159,7 @@ func attemptRetry(pipestance *core.Pipestance, pipestanceBox *pipestanceHolder,
 				"Transient error detected.  Log content:\n\n%s\n",
 				transient_log)
 		}
+		util.VerifPoint("retry:attempt")
 		util.LogInfo("runtime", "Attempting retry.")
 		if err := pipestanceBox.restart(ctx); err != nil {
 			util.LogInfo("runtime", "Retry failed:\n%v\n", err)
@@ -182,8 +187,11 @@ func cleanupCompleted(pipestance *core.Pipestance, pipestanceBox *pipestanceHold
 		util.LogInfo("runtime", "VDR killed %d files, %s.",
 			killReport.Count, humanize.Bytes(killReport.Size))
 	}
+	util.VerifPoint("cleanup:vdr_done")
 	trace.WithRegion(ctx, "PostProcess", pipestance.PostProcess)
+	util.VerifPoint("cleanup:post_done")
 	pipestance.Unlock()
+	util.VerifPoint("cleanup:unlocked")
 	pipestance.OnFinishHook(ctx)
 	updateComplete := pipestanceBox.UpdateState(core.Complete)
 	if noExit {
